@@ -17,7 +17,7 @@
     measure inside an interval, independent of any code. *)
 
 From Coq Require Import ZArith QArith List Bool Floats Arith Reals.
-From KV Require Import Scalar Geom Curves Path Dash.
+From KV Require Import Scalar RInst Geom Curves Path Dash.
 Import ListNotations.
 
 Set Implicit Arguments.
@@ -57,8 +57,11 @@ Fixpoint subpaths_go (els : list (PathEl T)) (start last : Point T) (acc : list 
   | QuadTo p1 p2 :: r => subpaths_go r start p2 (acc ++ [SegQuad (mkQuad last p1 p2)])
   | CurveTo p1 p2 p3 :: r => subpaths_go r start p3 (acc ++ [SegCubic (mkCubic last p1 p2 p3)])
   | ClosePath :: r =>
-      mkSub start (acc ++ (if pt_neb last start then [SegLine (mkLine last start)] else [])) true
-      :: subpaths_go r start start []
+      (* [last != start] is Rust's float comparison: when it is false the current point is kept
+         as it is (it may differ from [start] in the sign of a zero) *)
+      if pt_neb last start
+      then mkSub start (acc ++ [SegLine (mkLine last start)]) true :: subpaths_go r start start []
+      else mkSub start acc true :: subpaths_go r start last []
   end.
 
 (** the iterator starts with start = last = the origin *)
@@ -111,12 +114,13 @@ Fixpoint plain (fuel : nat) (segs : list (PathSeg T)) (ph : Phase T)
 Definition subpath_out (fuel : nat) (init : Phase T) (sp : SubPath) : option (list (PathEl T)) :=
   match sp_segs sp with
   | [] => Some []                                (* nothing to dash *)
-  | _ :: _ =>
+  | s0 :: _ =>
       match plain fuel (sp_segs sp) init with
       | None => None
       | Some (pcs, nsw, phe) =>
-          (* the first dash (if the sub-path starts "on") and the other pieces *)
-          let first := if p_act init then MoveTo (sp_start sp) :: takeWhile not_move pcs else [] in
+          (* the first dash (if the sub-path starts "on") and the other pieces; it starts at the
+             start of the first segment (= [sp_start sp] up to the sign of a zero coordinate) *)
+          let first := if p_act init then MoveTo (seg_start s0) :: takeWhile not_move pcs else [] in
           let others := dropWhile not_move pcs in
           Some (if sp_closed sp then
                   if (nsw =? 0)%nat && p_act init then first ++ [ClosePath]     (* one unbroken dash all around *)
@@ -174,3 +178,95 @@ Fixpoint on_meas (K : nat) (a b : R) : R :=
 Definition in_interval (k : nat) (x : R) : Prop := cum k <= x <= cum (S k).
 
 End Pattern.
+
+(** * Part 3: what "in path order, on the source, switching where the pattern switches" means
+    for a polyline, independent of any code *)
+Section Trace.
+Local Open Scope R_scope.
+Variable ds : list R.
+
+Definition llen (l : Line R) : R := line_arclen l.
+
+(** [Trace l x0 t k els k']: [els] are pieces of the line [l], whose start sits at pattern
+    position [x0]; we stand at parameter [t] of [l], inside interval [k] of the pattern.
+    Every element ends at a point [line_eval l t'] of [l] with [t'] not before the previous one;
+    inside the line an element ends exactly where interval [k] ends
+    ([x0 + t' * length = cum (k+1)]): a LineTo if that interval was "on" (even), a MoveTo
+    starting the next dash if it was "off"; the rest of the line is drawn iff the last interval
+    reached is "on".  [k'] is the interval in which the line ends. *)
+Inductive Trace (l : Line R) (x0 : R) : R -> nat -> list (PathEl R) -> nat -> Prop :=
+| tr_end t k :
+    0 <= t <= 1 -> cum ds k <= x0 + t * llen l -> x0 + llen l <= cum ds (S k) ->
+    Trace l x0 t k (if Nat.even k then [LineTo (line_eval l 1)] else []) k
+| tr_switch t k t' els k' :
+    0 <= t -> t <= t' -> t' <= 1 -> cum ds k <= x0 + t * llen l ->
+    x0 + t' * llen l = cum ds (S k) ->
+    Trace l x0 t' (S k) els k' ->
+    Trace l x0 t k ((if Nat.even k then LineTo (line_eval l t') else MoveTo (line_eval l t')) :: els) k'.
+
+(** the same along the lines of a sub-path, one after the other, the pattern position running on *)
+Inductive PTrace : list (Line R) -> R -> nat -> list (PathEl R) -> nat -> Prop :=
+| pt_nil x k : PTrace [] x k [] k
+| pt_cons l r x k e1 k1 e2 k2 :
+    Trace l x 0 k e1 k1 -> PTrace r (x + llen l) k1 e2 k2 ->
+    PTrace (l :: r) x k (e1 ++ e2) k2.
+
+(** consecutive lines are connected *)
+Fixpoint chained (ls : list (Line R)) : Prop :=
+  match ls with
+  | l :: ((l' :: _) as r) => l1 l = l0 l' /\ chained r
+  | _ => True
+  end.
+
+Definition total_len (ls : list (Line R)) : R := fold_right (fun l a => llen l + a) 0 ls.
+
+End Trace.
+
+(** * Part 4: the remaining vocabulary of the statements in Properties/C13.v *)
+Section Vocab.
+Local Open Scope R_scope.
+
+(** the pattern: non-empty, every interval at least [dm] > 0 *)
+Definition pattern_ok (ds : list R) (dm : R) : Prop :=
+  0 < dm /\ (forall d, In d ds -> dm <= d) /\ ds <> [].
+
+(** the iterator's phase (dash_ix, dash_remaining, is_active) describes position [x] inside interval [k]
+    of the cyclically repeated pattern; "on" iff [k] is even *)
+Definition phase_at (ds : list R) (k : nat) (x : R) (ph : Phase R) : Prop :=
+  p_ix ph = (k mod length ds)%nat /\ p_act ph = Nat.even k /\ p_rem ph = cum ds (S k) - x /\
+  cum ds k <= x <= cum ds (S k).
+
+(** fuel that suffices for the initial loop, and for the switches inside every segment *)
+Definition init_fuel (dm o : R) : nat := S (Z.to_nat (up (o / dm))).
+Definition fuel_ok (al : PathSeg R -> R) (dm : R) (fuel : nat) (els : list (PathEl R)) : Prop :=
+  forall sp, In sp (subpaths els) -> forall s, In s (sp_segs sp) -> al s < INR fuel * dm.
+
+(** polylines *)
+Definition poly_el (e : PathEl R) : Prop :=
+  match e with QuadTo _ _ => False | CurveTo _ _ _ => False | _ => True end.
+Definition first_pt (ls : list (Line R)) (d : Point R) : Point R := match ls with l :: _ => l0 l | [] => d end.
+
+(** length of a piece list drawn from the pen position [cur] *)
+Fixpoint len_from (cur : Point R) (els : list (PathEl R)) : R :=
+  match els with
+  | [] => 0
+  | MoveTo p :: r => len_from p r
+  | LineTo p :: r => llen (mkLine cur p) + len_from p r
+  | QuadTo _ p :: r => len_from p r
+  | CurveTo _ _ p :: r => len_from p r
+  | ClosePath :: r => len_from cur r
+  end.
+
+(** length of an emitted element list read as a path: MoveTo starts a dash, ClosePath draws back to
+    the start of its dash *)
+Fixpoint len2 (st cur : Point R) (els : list (PathEl R)) : R :=
+  match els with
+  | [] => 0
+  | MoveTo p :: r => len2 p p r
+  | LineTo p :: r => llen (mkLine cur p) + len2 st p r
+  | QuadTo _ p :: r => len2 st p r
+  | CurveTo _ _ p :: r => len2 st p r
+  | ClosePath :: r => llen (mkLine cur st) + len2 st st r
+  end.
+
+End Vocab.
